@@ -230,7 +230,9 @@ func verifHarnessCrash() {
 			// C04: a committed Sync batch must survive a power failure whatever was flushed
 			if verifParam("bsync") == 1 {
 				for i := 0; i < done; i++ {
-					if plan[i].kind == vOpBatch {
+					// (a batch that wrote nothing - e.g. only deletes of absent keys - has nothing to make
+					// durable and says nothing about EARLIER unsynced writes)
+					if plan[i].kind == vOpBatch && verifFSWrittenTag("op"+strconv.Itoa(i)) > 0 {
 						jmin = i + 1
 						verifReach("sync-batch-required-durable")
 					}
